@@ -235,7 +235,7 @@ theorem whole_processMessage (env : PEnv) (orc : EvalOracles) (expr : Expr) (md 
     simp only [afterParse]
     obtain ⟨h1, h2, h3, h4, h5', -⟩ := hms ms rfl
     -- evaluation: the footprint of the parse phase is kept
-    refine wp_bind_mono (wp_inv_mono (World.wp_evalFoot (msgEnv env orc ms.path) orc.timeFormat expr ms.msg ms.flags w00)
+    refine wp_bind_mono (wp_inv_mono (World.wp_evalFoot (msgEnv env orc ms.path) expr ms.msg ms.flags w00)
       (fun w' ef => inv0 w' (pf00.of_evalFoot ef))) ?_
     rintro ev w0 ⟨ef, as, hev⟩
     have pf : WholePF wP w0 := pf00.of_evalFoot ef
